@@ -1,10 +1,105 @@
-(* Props/C19.v — property C19 (placeholder while the proofs are being written). *)
+(* Props/C19.v — property C19: a finished streaming run leaves no blocked producer or goroutine
+   behind.  What is PROVED here is the accounting of stream handles in the model
+   Model/StreamAcct.v of runner.resolveCompletedTasks + channelManager.updateValues
+   (every copy made of a task's output has exactly one consumer).  That no goroutine stays
+   blocked is OBSERVED by the harness (harness/cmd/c19), not proved.
+   Only statements, each closed by [exact]. *)
 From Eino Require Import Base.Util Model.StreamAcct Proofs.StreamAcct.
+From Coq Require Import Permutation.
 Open Scope N_scope.
 
-Example v0_none_unbalanced :
-  res_map balanced (account_task_v0 witness_none) = Ok false /\ res_map balanced (account_task witness_none) = Ok true.
+(* Core (DESIGN §11).  For every completed task — any successor list, any list of branches
+   (with or without data flow), any outcome of every branch condition: selecting nothing,
+   several nodes, a node that is also a direct successor, a node selected by two branches —
+   resolveCompletedTasks does not panic and the number of live stream handles derived from
+   the task's output equals the number of branch evaluations plus channel writes plus
+   explicit closes; there is one branch evaluation per branch and one channel write or
+   close per distinct generated successor. *)
+Theorem copies_eq_consumers : forall t : task,
+  exists a, account_task t = Ok a /\
+    a_handles a = (a_branch_evals a + a_chan_writes a + a_closes a)%nat /\
+    a_branch_evals a = List.length (t_branches t) /\
+    (a_chan_writes a + a_update_closes a)%nat = List.length (next_keys t) /\
+    a_closes a = (a_resolve_closes a + a_update_closes a)%nat.
+Proof. exact copies_eq_consumers_l. Qed.
+Print Assumptions copies_eq_consumers.
+
+(* The same at the level of handles and for an arbitrary store: after the step the multiset of
+   live handles is the old one without the task's output, plus the handles given to the branch
+   conditions, to the successors' channels, and to close() — each exactly once (no handle is
+   lost, none is handed out twice), and the store stays duplicate-free. *)
+Theorem every_copy_has_one_consumer : forall t out s,
+  store_ok s -> In out (s_open s) ->
+  exists r, resolve_task t out s = Ok r /\
+    let u := update_values t (r_writes r) in
+    NoDup (s_open (r_store r)) /\
+    Permutation (s_open (r_store r))
+                (remove_one out (s_open s) ++
+                 r_branch_in r ++ map snd (u_chan u) ++ (u_closed u ++ r_closed r)) /\
+    map fst (r_writes r) = next_keys t /\
+    List.length (r_branch_in r) = List.length (t_branches t).
+Proof. exact every_copy_has_one_consumer_l. Qed.
+Print Assumptions every_copy_has_one_consumer.
+
+(* Every generated successor (selected by a branch or a direct data edge) gets exactly one value. *)
+Theorem successors_receive_once : forall t out s r,
+  store_ok s -> In out (s_open s) -> resolve_task t out s = Ok r ->
+  NoDup (map fst (r_writes r)) /\
+  (forall k, In k (map fst (r_writes r)) <-> In k (selected t) \/ In k (t_write_to t)).
+Proof. exact successors_once_l. Qed.
+Print Assumptions successors_receive_once.
+
+(* F-C19: the statement is false for the code before the repair b7635b4 ([resolve_task_v0]).
+   Witness 1: a node with an edge to END and a multi-branch that selects nothing — 3 copies,
+   1 branch evaluation, 1 channel write, nobody closes the third.
+   Witness 2: an edge and a branch to the same node — the map write overwrites one copy. *)
+Theorem copies_eq_consumers_v0_refuted :
+  ~ (forall t a, account_task_v0 t = Ok a ->
+       a_handles a = (a_branch_evals a + a_chan_writes a + a_closes a)%nat).
+Proof. exact v0_refuted_l. Qed.
+Print Assumptions copies_eq_consumers_v0_refuted.
+
+Theorem copies_eq_consumers_v0_refuted_same_target :
+  ~ (forall t a, account_task_v0 t = Ok a ->
+       a_handles a = (a_branch_evals a + a_chan_writes a + a_closes a)%nat).
+Proof. exact v0_twice_refuted_l. Qed.
+Print Assumptions copies_eq_consumers_v0_refuted_same_target.
+
+(* non-vacuity: concrete accounts (v0 against current code on the two witnesses; a fan-out with
+   two branches selecting three distinct nodes plus one repeated; a Workflow-style branch
+   without data flow whose selected node is closed by updateValues) *)
+Example witness_none_accounts :
+  account_task_v0 witness_none =
+    Ok {| a_copies := [3%Z]; a_handles := 3; a_branch_evals := 1; a_chan_writes := 1; a_closes := 0;
+          a_resolve_closes := 0; a_update_closes := 0 |} /\
+  account_task witness_none =
+    Ok {| a_copies := [3%Z]; a_handles := 3; a_branch_evals := 1; a_chan_writes := 1; a_closes := 1;
+          a_resolve_closes := 1; a_update_closes := 0 |}.
 Proof. vm_compute. split; reflexivity. Qed.
-Example v0_twice_unbalanced :
-  res_map balanced (account_task_v0 witness_twice) = Ok false /\ res_map balanced (account_task witness_twice) = Ok true.
+
+Example witness_twice_accounts :
+  account_task_v0 witness_twice =
+    Ok {| a_copies := [3%Z]; a_handles := 3; a_branch_evals := 1; a_chan_writes := 1; a_closes := 0;
+          a_resolve_closes := 0; a_update_closes := 0 |} /\
+  account_task witness_twice =
+    Ok {| a_copies := [3%Z]; a_handles := 3; a_branch_evals := 1; a_chan_writes := 1; a_closes := 1;
+          a_resolve_closes := 1; a_update_closes := 0 |}.
 Proof. vm_compute. split; reflexivity. Qed.
+
+Example fanout_accounts :
+  account_task {| t_node := 2; t_write_to := [3; 4];
+                  t_branches := [ {| b_nodata := false; b_ends := [4; 5; 6]; b_sel := [4; 5; 6] |};
+                                  {| b_nodata := false; b_ends := [6; 7]; b_sel := [6; 7] |} ] |} =
+    Ok {| a_copies := [6%Z; 2%Z]; a_handles := 7; a_branch_evals := 2; a_chan_writes := 5; a_closes := 0;
+          a_resolve_closes := 0; a_update_closes := 0 |}.
+Proof. vm_compute. reflexivity. Qed.
+
+Example nodata_branch_accounts :
+  account_task {| t_node := 2; t_write_to := [3];
+                  t_branches := [ {| b_nodata := true; b_ends := [4; 5]; b_sel := [4] |} ] |} =
+    Ok {| a_copies := [3%Z]; a_handles := 3; a_branch_evals := 1; a_chan_writes := 1; a_closes := 1;
+          a_resolve_closes := 0; a_update_closes := 1 |}.
+Proof. vm_compute. reflexivity. Qed.
+
+Example store_ok_nonvacuous : store_ok (init_store 0) /\ In 0 (s_open (init_store 0)).
+Proof. split; [exact (init_store_ok 0)|now left]. Qed.
